@@ -264,6 +264,8 @@ def _ro_linked(op):
 def _f31(op, impl, model):
     runs = impl.get("runs") if isinstance(impl, dict) else None
     errs = [str(r.get("recverr", "")) for r in runs] if runs else [str(impl.get("recverr", ""))]
+    if isinstance(impl, dict) and isinstance(impl.get("again"), dict):
+        errs.append(str(impl["again"].get("recverr", "")))      # (the repeated transfer of the re-sync suite)
     return bool(op.get("opt", {}).get("unpriv")) and _ro_linked(op) and any("permission denied" in e and "failed to open" in e for e in errs)
 
 
@@ -306,7 +308,7 @@ class SyncC02(SyncSuite):
             return v
         notes = []
         if ag["send"] != "ok" or ag["recv"] != "ok":
-            notes.append("the repeated transfer failed: send=%s recv=%s" % (ag["send"], ag["recv"]))
+            notes.append("the repeated transfer failed: send=%s (%s) recv=%s (%s)" % (ag["send"], ag.get("senderr"), ag["recv"], ag.get("recverr")))
         elif op["opt"].get("differ") != "none":
             if ag["reqs"] != 0:
                 notes.append("re-sync of an unchanged source sent %d content requests" % ag["reqs"])
